@@ -23,6 +23,7 @@ import (
 	"sort"
 	"strconv"
 	"strings"
+	"sync"
 	"syscall"
 	"time"
 
@@ -462,43 +463,67 @@ func runCoordinator(args []string) int {
 			total.Merge(p)
 		}
 	}
-	// solo re-runs of watchdog cases
-	for _, sj := range solos {
-		a := []string{"worker", "-prop", *prop, "-tier", *tier, "-seed", fmt.Sprint(seed), "-shard", "900", "-nshards", "1", "-dir", dir, "-gen", fmt.Sprint(sj.idx), "-only", fmt.Sprint(sj.idx)}
-		cmd := exec.Command(self, a...)
-		base := filepath.Join(dir, fmt.Sprintf("w900.g%d", sj.idx))
-		errf, _ := os.Create(base + ".stderr")
-		cmd.Stdout, cmd.Stderr = errf, errf
-		cmd.Env = append(os.Environ(), "GOTRACEBACK=all")
-		cmd.Start()
-		done := make(chan error, 1)
-		go func() { done <- cmd.Wait() }()
-		select {
-		case err := <-done:
-			errf.Close()
-			if rec := loadRec(base + ".result.json"); rec != nil && err == nil {
-				total.Merge(rec)
-			} else {
-				procFindings = append(procFindings, rt.Finding{Prop: *prop, Oracle: "process-died", Cluster: classifyDeath(tailFile(base+".stderr", 60)), Case: sj.idx, Tier: *tier, Seed: seed,
-					Detail: map[string]any{"exit": fmt.Sprint(err), "stderr_tail": tailFile(base+".stderr", 60)}})
-			}
-		case <-time.After(4 * timeout):
-			cmd.Process.Signal(syscall.SIGQUIT)
-			select {
-			case <-done:
-			case <-time.After(10 * time.Second):
-				cmd.Process.Kill()
-				<-done
-			}
-			errf.Close()
-			if *prop == "C06" {
-				procFindings = append(procFindings, rt.Finding{Prop: *prop, Oracle: "hang-confirmed", Cluster: "case did not end alone within the solo limit", Case: sj.idx, Tier: *tier, Seed: seed,
-					Detail: map[string]any{"goroutines": tailFile(base+".stderr", 80)}})
-			} else {
-				inconclusive = append(inconclusive, fmt.Sprintf("case %d exceeded the watchdog twice", sj.idx))
-			}
+	// solo re-runs of watchdog cases: each alone in a fresh process, a few at a time (a machine
+	// busy with sixteen workers is why the limit is generous: four times the case timeout)
+	const maxSolos = 12
+	if len(solos) > maxSolos {
+		inconclusiveNote := fmt.Sprintf("%d further cases exceeded the watchdog and were not re-run alone (the first %d were)", len(solos)-maxSolos, maxSolos)
+		if total.Notes == nil {
+			total.Notes = map[string]string{}
 		}
+		total.Notes["watchdog"] = inconclusiveNote
+		solos = solos[:maxSolos]
 	}
+	var soloMu sync.Mutex
+	var soloWG sync.WaitGroup
+	soloSem := make(chan struct{}, 6)
+	for _, sj := range solos {
+		sj := sj
+		soloWG.Add(1)
+		soloSem <- struct{}{}
+		go func() {
+			defer func() { <-soloSem; soloWG.Done() }()
+			a := []string{"worker", "-prop", *prop, "-tier", *tier, "-seed", fmt.Sprint(seed), "-shard", "900", "-nshards", "1", "-dir", dir, "-gen", fmt.Sprint(sj.idx), "-only", fmt.Sprint(sj.idx)}
+			cmd := exec.Command(self, a...)
+			base := filepath.Join(dir, fmt.Sprintf("w900.g%d", sj.idx))
+			errf, _ := os.Create(base + ".stderr")
+			cmd.Stdout, cmd.Stderr = errf, errf
+			cmd.Env = append(os.Environ(), "GOTRACEBACK=all")
+			cmd.Start()
+			done := make(chan error, 1)
+			go func() { done <- cmd.Wait() }()
+			select {
+			case err := <-done:
+				errf.Close()
+				soloMu.Lock()
+				if rec := loadRec(base + ".result.json"); rec != nil && err == nil {
+					total.Merge(rec)
+				} else {
+					procFindings = append(procFindings, rt.Finding{Prop: *prop, Oracle: "process-died", Cluster: classifyDeath(tailFile(base+".stderr", 60)), Case: sj.idx, Tier: *tier, Seed: seed,
+						Detail: map[string]any{"exit": fmt.Sprint(err), "stderr_tail": tailFile(base+".stderr", 60)}})
+				}
+				soloMu.Unlock()
+			case <-time.After(4 * timeout):
+				cmd.Process.Signal(syscall.SIGQUIT)
+				select {
+				case <-done:
+				case <-time.After(10 * time.Second):
+					cmd.Process.Kill()
+					<-done
+				}
+				errf.Close()
+				soloMu.Lock()
+				if *prop == "C06" {
+					procFindings = append(procFindings, rt.Finding{Prop: *prop, Oracle: "hang-confirmed", Cluster: "case did not end alone within the solo limit", Case: sj.idx, Tier: *tier, Seed: seed,
+						Detail: map[string]any{"goroutines": tailFile(base+".stderr", 80)}})
+				} else {
+					inconclusive = append(inconclusive, fmt.Sprintf("case %d exceeded the watchdog twice", sj.idx))
+				}
+				soloMu.Unlock()
+			}
+		}()
+	}
+	soloWG.Wait()
 	// race detector reports (C19 is built with -race; GORACE log_path is set by run.sh)
 	if raceDir := os.Getenv("VERIF_RACE_DIR"); raceDir != "" {
 		viol, harness := collectRaces(raceDir, *prop, *tier, seed)
